@@ -310,7 +310,11 @@ func runConc(sc *Scenario, st *SiteTable, raceLog *raceLogReader) *Outcome {
 	}
 	out.Strategy = ref.VerifEngine().Strategy().String()
 	want := make([][]string, len(sc.Workers))
-	refRes := simrt.Run(simrt.Config{Policy: simrt.PolSerial, NumSites: len(st.Sites), CountSite: true}, []func(){func() {
+	// the reference pass has a step budget too: the scheduler panics inside a call once
+	// 50 x MaxSteps (= 2 x maxRefSteps) steps are used up, execOp recovers it, the remaining
+	// calls end at their first yield, and the scenario is skipped as too expensive below - a
+	// quadratic path on a 70 KB haystack must cost seconds, not the shard
+	refRes := simrt.Run(simrt.Config{Policy: simrt.PolSerial, NumSites: len(st.Sites), CountSite: true, MaxSteps: maxRefSteps/25 + 1}, []func(){func() {
 		for w, ops := range sc.Workers {
 			want[w] = make([]string, len(ops))
 			for i := range ops {
@@ -344,15 +348,20 @@ func runConc(sc *Scenario, st *SiteTable, raceLog *raceLogReader) *Outcome {
 		// the warm-up runs under the simulator too (one worker, no preemption) so that the
 		// step budget applies: a call that never returns is a finding, not a hung shard
 		var warmRes []string
-		simrt.Run(simrt.Config{Policy: simrt.PolSerial, NumSites: len(st.Sites), MaxSteps: refRes.Steps*4 + 400000}, []func(){func() {
+		simrt.Run(simrt.Config{Policy: simrt.PolSerial, NumSites: len(st.Sites), MaxSteps: maxRefSteps/25 + 1}, []func(){func() {
 			for i := range sc.Warm {
 				warmRes = append(warmRes, execOp(re1, &sc.Warm[i], hb, hs))
 			}
 		}})
 		for i, r := range warmRes {
 			if strings.Contains(r, "step budget exceeded") {
-				out.Class = "completion"
-				out.Detail = fmt.Sprintf("warm-up call %d (%s) did not return within 50x the step budget of the whole reference pass", i, sc.Warm[i].API)
+				// a warm-up call may legitimately cost far more than the reference pass (other
+				// calls, other haystacks; quadratic paths are C05's business): the scenario is too
+				// expensive, skipped and counted - an absolute budget cannot tell "slow" from
+				// "never returns", so no verdict is drawn from it (a first version reported
+				// `completion` here and raised a false alarm on (?m)^(?:\d\d:\d\d)$ / 13 KB)
+				_ = i
+				out.Class = "skipped"
 				return out
 			}
 		}
